@@ -17,7 +17,10 @@ def one(data_spec):
         return
     with mat:
         stats["programs"] += 1
-        for s in U.walk(spec): stats["kind:" + s["k"]] += 1
+        for s in U.walk(spec):
+            stats["kind:" + s["k"]] += 1
+            if s["k"] == "ref" and (s["mod"], s["name"]) not in mat.class_specs:
+                stats["DANGLING-REF"] += 1; print("DANGLING", s, mat.root_expr)
         # soundness of the generated source: Python itself resolves every annotation of every declared class (a text that names
         # nothing would make the library fall back to "no usable hints" - and a check report that as a defect)
         import typing
@@ -51,5 +54,5 @@ def one(data_spec):
                 U.plain_wire(spec, v, mat)
             except Exception as ex:
                 stats["WIRE-FAIL"] += 1; print("WIRE", repr(ex), mat.root_expr)
-core.drive(st.tuples(U.root_specs(max_depth=4, mods=3, adversarial=True), st.data()), one, n=int(sys.argv[1]) if len(sys.argv) > 1 else 400, seed=int(sys.argv[2]) if len(sys.argv) > 2 else 5)
+core.drive(st.tuples(U.root_specs(max_depth=int(sys.argv[3]) if len(sys.argv) > 3 else 4, mods=3, adversarial=True), st.data()), one, n=int(sys.argv[1]) if len(sys.argv) > 1 else 400, seed=int(sys.argv[2]) if len(sys.argv) > 2 else 5)
 for k, v in sorted(stats.items()): print(k, v)
